@@ -820,7 +820,8 @@ def _quant(ip, st, args, is_all):
     items = concrete_items(ip, st, v)
     if items is None:
         if isinstance(v, LazyMap):
-            raise Unsupported("all/any over lazy map of symbolic sequence")
+            yield from quant_map(ip, st, v, is_all)
+            return
         raise Unsupported("all/any over %r" % (v,))
     ts = []
     for x in items:
@@ -838,6 +839,30 @@ def _all(ip, st, args, kwargs):
 @builtin("any")
 def _any(ip, st, args, kwargs):
     yield from _quant(ip, st, args, False)
+
+
+def quant_map(ip, st, lm, is_all):
+    """all(map(f, xs)) / any(map(f, xs)) over a symbolic sequence: f evaluated once on xs[i], i bound."""
+    xs = lm.seq
+    if not (isinstance(xs, Sym) and (is_list_kind(xs.kind) or xs.kind == "bytes")):
+        raise Unsupported("all/any(map(f, %r))" % (xs,))
+    i = tm.BoundVar(tm.fresh_name("i"), INT)
+    n = tm.Len(xs.term)
+    guard = tm.And(tm.Le(tm.Int(0), i), tm.Lt(i, n))
+    inner = st.fork()
+    inner.in_quantifier = True
+    inner.assume(guard)
+    e = tm.Nth(xs.term, i)
+    terms, raised = [], []
+    for s1, v in ip.call(inner, lm.func, [L.elem_value(xs.kind, e)], {}):
+        extra = tm.And(*[c for c in s1.pc if c not in inner.facts])
+        if isinstance(v, Raise):
+            raised.append((extra, v))
+        else:
+            t = ip.truth(s1, v)
+            terms.append((extra, tm.Bool(t) if isinstance(t, bool) else t.term))
+    body = tm.And(*[tm.Implies(c, t) for c, t in terms]) if is_all else tm.Or(*[tm.And(c, t) for c, t in terms])
+    yield from _finish_quant(ip, st, body, raised, is_all, inner)
 
 
 def quant_genexp(ip, st, e, is_all):
@@ -960,6 +985,25 @@ def _unrolled_quant(ip, st, e, g, items, is_all):
                     yield s3, (not is_all)
                 else:
                     yield from _unrolled_quant(ip, s3, e, g, items[1:], is_all)
+
+
+@builtin("chr")
+def _chr(ip, st, args, kwargs):
+    (v,) = args
+    v = int_of(v)
+    if not is_sym(v):
+        yield st, chr(v)
+        return
+    yield st, Sym("str", tm.T("str.from_code", (v.term,), STR))
+
+
+@builtin("ord")
+def _ord(ip, st, args, kwargs):
+    (v,) = args
+    if not is_sym(v):
+        yield st, ord(v)
+        return
+    yield st, Sym("int", tm.T("str.to_code", (v.term,), INT))
 
 
 @builtin("min")
@@ -1158,15 +1202,37 @@ def _m_endswith(ip, st, recv, args, kwargs):
     yield st, as_value("bool", tm.SuffixOf(to_term(p), to_term(recv)))
 
 
+utf8 = tm.FunDecl("utf8", [STR], BYTES)
+
+
 @method("str", "encode")
 def _m_encode(ip, st, recv, args, kwargs):
     if not is_sym(recv):
         yield st, recv.encode(*[a for a in args])
         return
-    h = EXTERNALS.get("str.encode")
-    if h is None:
-        raise Unsupported("encode of symbolic str")
-    yield from h(ip, st, [recv] + list(args), kwargs)
+    # a string built from ASCII code points (chr(c), c < 128, and literals) encodes to those code points
+    codes = ascii_codes(recv.term)
+    if codes is not None and all(c.op == "int" or ip.must(st, tm.And(tm.Le(tm.Int(0), c), tm.Lt(c, tm.Int(128))))
+                                 for c in codes):
+        yield st, as_value("bytes", tm.SeqLit(codes, INT))
+        return
+    r = Sym("bytes", utf8(recv.term))
+    st.assume(tm.Le(tm.Len(recv.term), tm.Len(r.term)))
+    yield st, r
+
+
+def ascii_codes(t):
+    """code points of a string term made only of literals and str.from_code(c) pieces, else None"""
+    parts = t.args if t.op == "str.++" else (t,)
+    out = []
+    for p in parts:
+        if p.op == "str" and p.val.isascii():
+            out.extend(tm.Int(ord(ch)) for ch in p.val)
+        elif p.op == "str.from_code":
+            out.append(p.args[0])
+        else:
+            return None
+    return out
 
 
 @method("bytes", "decode")
@@ -1487,3 +1553,33 @@ def _struct_pack(ip, st, args, kwargs):
             yield st1, res
         else:
             yield st1, Raise(mk_exc(st1, struct_error, "argument out of range"))
+
+
+import string as _string
+for _n in ("ascii_letters", "digits", "ascii_lowercase", "ascii_uppercase", "hexdigits"):
+    EXTERNAL_VALUES["string." + _n] = getattr(_string, _n)
+
+
+@register_external("random.seed")
+def _random_seed(ip, st, args, kwargs):
+    yield st, None
+
+
+@register_external("random.choice")
+def _random_choice(ip, st, args, kwargs):
+    (seq,) = args
+    if isinstance(seq, str) and seq:
+        c = tm.Fresh("choice", INT)
+        codes = sorted({ord(ch) for ch in seq})
+        st.assume(tm.Or(*[tm.Eq(c, tm.Int(k)) for k in codes]))
+        yield st, Sym("str", tm.T("str.from_code", (c,), STR))
+        return
+    raise Unsupported("random.choice over %r" % (seq,))
+
+
+@register_external("os.urandom")
+def _urandom(ip, st, args, kwargs):
+    n = int_of(args[0])
+    r = Sym("bytes", tm.Fresh("urandom", BYTES))
+    st.assume(tm.Eq(tm.Len(r.term), to_term(n)))
+    yield st, r
